@@ -415,6 +415,7 @@ func (vc *VC) appendOp(st *State, resV ssa.Value, c *ssa.CallCommon) {
 		}
 	}
 	vc.assumedUse["append always copies to a fresh backing array (aliasing through spare capacity not modelled)"] = true
+	arr = vc.patSafe(arr, sortC)
 	r := vc.newRef(st, "appendbacking")
 	// second argument is a slice (variadic form)
 	t := vc.val(st, c.Args[1])
@@ -456,6 +457,7 @@ func (vc *VC) copyOp(st *State, resV ssa.Value, c *ssa.CallCommon) {
 	comp, es := vc.elemComp(sl.Elem())
 	sortC := "(Array Int (Array Int " + es + "))"
 	arr := vc.heapGet(st, comp, sortC)
+	arr = vc.patSafe(arr, sortC)
 	n := vc.define("copyn", "Int", sx("imin", sx("slen", d), sx("slen", s)))
 	vc.writeCheck(st, comp, sx("sbase", d))
 	nb := vc.declare("copied", "(Array Int "+es+")")
